@@ -265,15 +265,15 @@ def run(cfg):
     # known sources first are not needed in bulk: keep at most 3 records per mapped class, all unmapped ones
     kept, seen = [], {}
     for f in sorted(failures, key=lambda f: (f["class"] in PER_SOURCE, len(json.dumps(f.get("input", {}).get("formula", ""))))):
-        n = seen.get(f["class"], 0)
-        if f["class"] in PER_SOURCE and n >= 3:
+        have = seen.get(f["class"], 0)
+        if f["class"] in PER_SOURCE and have >= 3:
             continue
-        seen[f["class"]] = n + 1
+        seen[f["class"]] = have + 1
         kept.append(f)
     collapsed = {}
-    for k, n in meta.get("oracle_failures_per_class", {}).items():
+    for k, cnt in meta.get("oracle_failures_per_class", {}).items():
         kk = k.split(":")[0] if (k in baseline) else k
-        collapsed[kk] = collapsed.get(kk, 0) + n
+        collapsed[kk] = collapsed.get(kk, 0) + cnt
     sources_seen = per_source_classes(meta)
     thorough = cfg["tier"] == "thorough"
     return {
